@@ -113,6 +113,17 @@ def updaterLine (st : UpRun) (lineNo : Nat) (line : String) : Except String (UpR
         | none => (st.installs, upds1)
       finish { st with installs := installs2, upds := upds2 }
         s!"get:{if mid.isSome then "midinstall:" else ""}{if wasPending then "rebuild" else "keep"}:{if okBuild then "ok" else "fail"}:installs_since{min 4 (st.installs.size - u.lastGetInstalls)}" outs
+  | "mixedupd" :: rest =>
+    -- an updater whose T is an interface type: closers and non-closers alternate
+    let fs := fields rest
+    let get := fun k => (lookup fs k).getD ""
+    let n := fun k => (get k).toNat?.getD 0
+    let tag := s!"hist={st.hist} line={lineNo} first={get "first"}"
+    let outs :=
+      (if n "stale" == 0 && n "panics" == 0 then [] else [s!"PROPFAIL C15 no_lost_update {tag} an updater whose values are sometimes io.Closers and sometimes not: stale={get "stale"} panics={get "panics"} (after an install the next Get must yield a value built from the newest bytes)"]) ++
+      (if n "unclosed" == 0 && n "multiclosed" == 0 then [] else [s!"PROPFAIL C15 closed_exactly_once {tag} unclosed={get "unclosed"} multiclosed={get "multiclosed"}"]) ++
+      (if n "curclosed" == 0 then [] else [s!"PROPFAIL C15 current_never_closed {tag}"])
+    finish st "mixedupd" outs
   | _ => if line.startsWith "#" || line.isEmpty then .ok (st, []) else .error s!"line {lineNo}: unknown line kind"
 
 end Setec.Driver
